@@ -87,6 +87,9 @@ func union(es ...[]cfgx.Edge) []cfgx.Edge {
 
 func c08(c *Ctx) {
 	c08claim(c)
+	// the deletion branch finds the XR through the claim's resourceRef: an XR that exists
+	// before the claim durably names it is invisible to teardown
+	claimRecordsFirst(c, c.method(pkgClaim, "ServerSideCompositeSyncer", "Sync"), c.method(pkgClaim, "ClientSideCompositeSyncer", "Sync"), "R8.7", "R8.8")
 	c08xrd(c, "R8.2", "internal/controller/apiextensions/definition", engineStop, true)
 	c08xrd(c, "R8.3", "internal/controller/apiextensions/offered", engineStopOff, false)
 	c08revision(c)
